@@ -18,6 +18,10 @@ def model(ex, ci, args, fn, dest_ty):
     if trb is not None:
         r = trait_model(ex, ci, trb, st, meth, args, fn, dest_ty)
         if r is not NotImplemented: return r
+        hook = ex.env.get('extern')
+        if hook is not None:
+            r = hook(ex, ci, base_ty(st) if st else '', meth, args, fn, dest_ty)
+            if r is not NotImplemented: return r
     else:
         sb = base_ty(st) if st else ''
         for mod in (models_coll, models_str, models_misc):
